@@ -151,9 +151,9 @@ def main(argv=None):
         exhaustive=ctx.exhaustive)
     validate_evidence(p)
     c = ctx.acc
-    print(f'{prop} tier={args.tier} seed={seed} states={len(c.states)} '
+    print(f'{prop} tier={args.tier} seed={seed} states={c.n_states()} '
           f'transitions={c.counts.get("transitions", 0)} evaluations={c.counts.get("evaluations", 0)} '
-          f'nontrivial={len(c.nontrivial)} outcomes={len(c.outcomes)} '
+          f'nontrivial={c.n_nontrivial()} outcomes={len(c.outcomes)} '
           f'known={len(seen_known)} new_violations={new} wall={wall:.1f}s')
     return 1 if new else 0
 
